@@ -502,6 +502,8 @@ int main(int argc, char **argv)
 
 	for (long c = from; c < to && c < total; ++c) {
 	    int kind, seedno;
+
+	    cf_leak_force = c + 1 >= to || c + 1 >= total;
 	    size_t pos;
 	    buf_t in;
 	    char cid[64];
@@ -543,6 +545,8 @@ int main(int argc, char **argv)
 
 	for (long c = from; c < to; ++c) {
 	    int kind = (int)(c % NKINDS);
+
+	    cf_leak_force = c + 1 >= to;
 	    long j = c / NKINDS;
 	    int mut = (int)(j % NMUT);
 	    int seedno = (int)((j / NMUT) % nseeds[kind]);
